@@ -256,9 +256,39 @@ func init() {
 		Rules: []Rule{
 			{ID: "C01-leaf", Floor: 1, Run: c01Leaf, Text: "[LAYOUT] Bridge.Hash ≡ contract getLeafValue"},
 			{ID: "C01-step", Floor: 6, Run: c01Step, Text: "[TREE]+[LAYOUT] orientation / level indexing of AddLeaf and initCache; node hash; zero hashes"},
+			{ID: "C01-immutable", Floor: 2, Run: c01Immutable, Text: "[WHO] event objects are not modified between download and leaf hash / storage"},
 			{ID: "C01-feed", Floor: 14, Run: c01Feed, Text: "[PROV]+[DOM]+[FIELDMAP] leaf fed from the same event; no row without leaf; downloader field map"},
-			{ID: "C01-store", Floor: 6, Run: c08Store, Text: "(shared with C08-store) every path node is stored; not-found only for missing rows; last root by (block_num, block_position) — what initCache rebuilds the frontier from after a restart"},
+			{ID: "C01-store", Floor: 6, Run: func(c *core.Ctx) { storeRule(c, "C01-store") }, Text: "(shared with C08-store) every path node is stored; not-found only for missing rows; last root by (block_num, block_position) — what initCache rebuilds the frontier from after a restart"},
 			{ID: "C01-restart", Floor: 8, Run: c01Restart, Text: "[WHO]+[DOM] sentinel, frontier writers, mismatch rebuild (shared with TX-mem); trees built on the store's database"},
 		},
 	})
+}
+
+// c01Immutable: the event objects are hashed and stored exactly as the downloader built them: outside their
+// constructors (fresh allocations) the fields of bridgesync.Bridge are written only by Hash's nil-Amount default.
+// A "normalisation" of a field between the download and the leaf hash makes the node's leaf differ from the
+// contract's for the inputs it touches.
+func c01Immutable(c *core.Ctx) {
+	const rule = "C01-immutable"
+	for _, tn := range []string{"Bridge", "Claim"} {
+		n := c.Named("bridgesync", tn)
+		if n == nil {
+			c.Undecide(rule, "anchor bridgesync."+tn, 0, "type does not resolve")
+			continue
+		}
+		var bad []string
+		for _, fs := range fieldStoresOf(c, n) {
+			fnName := core.ShortFn(fs.fn)
+			switch {
+			case tn == "Bridge" && fnName == "(*bridgesync.Bridge).Hash" && fs.field == "Amount":
+				continue // nil amount hashes as zero; the stored value is the same number
+			}
+			if tn == "Claim" && strings.HasPrefix(fnName, "(*bridgesync.Claim).") {
+				continue // the claim's own call-data decoders, run by the downloader before the event is emitted
+			}
+			bad = append(bad, fs.field+"@"+fnName)
+		}
+		sort.Strings(bad)
+		c.Decide(len(bad) == 0, rule, "bridgesync."+tn+"#written-only-while-built", 0, fmt.Sprintf("fields of %s are not modified after the downloader built the event (writers: %v)", tn, bad))
+	}
 }
